@@ -22,4 +22,26 @@ InsertThenGet == [][\A k \in Keys : (k \in DOMAIN m' /\ k \notin DOMAIN m) => Ca
 LenBound == Cardinality(DOMAIN m) <= Cardinality(Keys)
 OnlyOneKeyChanges == [][\/ m' = Empty
                          \/ Cardinality({k \in Keys : Lookup(k) /= (IF k \in DOMAIN m' THEN Some(m'[k]) ELSE None)}) <= 1]_m
+
+(* ---- the operations outside the property's list (MC_MapX.cfg): batches, retain,      *)
+(* get_or_insert.  Laws: a batch equals its single insertions in order; retain only      *)
+(* removes; a batch only adds.                                                            *)
+Batches == UNION { [1..n -> Keys \X Vals] : n \in 0..2 }
+NextX ==
+    \/ Next
+    \/ \E kv \in Batches : Extend(kv)
+    \/ \E S \in SUBSET Keys : RetainCore(LAMBDA k, v : k \in S, LAMBDA v : v)
+    \/ \E v \in Vals : RetainCore(LAMBDA k, x : x = v, LAMBDA x : x)
+    \/ \E k \in Keys, v \in Vals, w \in Vals : GetOrInsert(k, v, w, IF k \in DOMAIN m THEN m[k] ELSE v)
+SpecX == MapInit /\ [][NextX]_m
+ApplySeq(f, kv) == IF Len(kv) = 0 THEN f
+                   ELSE IF Len(kv) = 1 THEN [x \in DOMAIN f \cup {kv[1][1]} |-> IF x = kv[1][1] THEN kv[1][2] ELSE f[x]]
+                   ELSE LET g == [x \in DOMAIN f \cup {kv[1][1]} |-> IF x = kv[1][1] THEN kv[1][2] ELSE f[x]]
+                        IN [x \in DOMAIN g \cup {kv[2][1]} |-> IF x = kv[2][1] THEN kv[2][2] ELSE g[x]]
+BatchIsSequence == \A kv \in Batches : UpdAll(kv) = ApplySeq(m, kv)
+RetainOnlyRemoves == \A S \in SUBSET Keys :
+    LET r == [k \in { x \in DOMAIN m : x \in S } |-> m[k]] IN DOMAIN r \subseteq DOMAIN m /\ \A k \in DOMAIN r : r[k] = m[k]
+ValuesOfEnumeration == \A r \in [1..Cardinality(DOMAIN m) -> Pairs] :
+    IsEnumeration(r) => /\ Len(r) = Cardinality(DOMAIN m)
+                        /\ \A x \in Vals : CountIn([i \in 1..Len(r) |-> r[i][2]], x) = Cardinality({ k \in DOMAIN m : m[k] = x })
 =============================================================================
